@@ -16,9 +16,9 @@ use std::cell::Cell;
 use std::io::{self, Read, Seek, SeekFrom, Write};
 use std::path::{Path, PathBuf};
 
-pub const NF: usize = 4;
+pub const NF: usize = 3;
 pub const NAME_CAP: usize = 64;
-pub const FCAP: usize = 2304;
+pub const FCAP: usize = 1024;
 pub const PATCH_CAP: usize = 1280;
 pub const ND: usize = 6;
 
@@ -98,14 +98,30 @@ pub fn reset() {
     while i < NF { s.used[i] = false; s.len[i] = 0; s.name_len[i] = 0; i += 1; }
     s.patch_len = 0; s.patch_name_len = 0; s.ndirs = 0; s.mutations = 0; s.limit_hit = false;
 }
+/// the harness writes the patch file byte by byte (stores at concrete indices keep concrete bytes constant for
+/// symbolic execution; a bulk copy of a buffer that holds some symbolic bytes would not)
+pub fn patch_begin(name: &str) {
+    let s = fs();
+    s.patch_len = 0;
+    let n = name.as_bytes();
+    let mut i = 0;
+    while i < n.len() { s.patch_name[i] = n[i]; i += 1; }
+    s.patch_name_len = n.len();
+}
+pub fn patch_push(b: u8) {
+    let s = fs();
+    s.patch[s.patch_len] = b;
+    s.patch_len += 1;
+}
+pub fn patch_len() -> usize { fs().patch_len }
+pub fn patch_truncate(n: usize) { fs().patch_len = n; }
 pub fn install_patch(name: &str, bytes: &[u8]) {
     let s = fs();
     assert!(bytes.len() <= PATCH_CAP && name.len() <= NAME_CAP);
-    let mut i = 0;
-    while i < bytes.len() { s.patch[i] = bytes[i]; i += 1; }
+    s.patch[..bytes.len()].copy_from_slice(bytes);
     s.patch_len = bytes.len();
     let n = name.as_bytes();
-    i = 0;
+    let mut i = 0;
     while i < n.len() { s.patch_name[i] = n[i]; i += 1; }
     s.patch_name_len = n.len();
 }
@@ -114,8 +130,7 @@ pub fn add_file(name: &str, bytes: &[u8]) -> usize {
     let slot = create_slot(name.as_bytes()).unwrap();
     let s = fs();
     assert!(bytes.len() <= FCAP);
-    let mut i = 0;
-    while i < bytes.len() { s.data[slot][i] = bytes[i]; i += 1; }
+    s.data[slot][..bytes.len()].copy_from_slice(bytes);
     s.len[slot] = bytes.len();
     slot
 }
@@ -158,9 +173,9 @@ impl File {
         let s = fs();
         if self.patch != 0 || self.writable == 0 { return Err(io::Error::from(io::ErrorKind::PermissionDenied)); }
         let n = n as usize;
-        if n > FCAP { s.limit_hit = true; return Err(io::Error::from(io::ErrorKind::Other)); }
-        let mut i = 0;
-        while i < FCAP { if i >= s.len[self.slot] && i < n { s.data[self.slot][i] = 0; } i += 1; }
+        if n > FCAP { s.limit_hit = true; return Ok(()); }
+        let cur = s.len[self.slot];
+        if n > cur { unsafe { core::ptr::write_bytes(s.data[self.slot].as_mut_ptr().add(cur), 0, n - cur); } }
         s.len[self.slot] = n;
         s.mutations += 1;
         Ok(())
@@ -185,15 +200,16 @@ impl File {
         let s = fs();
         if self.patch != 0 || self.writable == 0 { return Err(io::Error::from(io::ErrorKind::PermissionDenied)); }
         let p = self.pos.get() as usize;
-        if p > FCAP || buf.len() > FCAP - p { s.limit_hit = true; return Err(io::Error::from(io::ErrorKind::Other)); }
+        // beyond the model's capacity: flagged (the harnesses assert !limit_hit) and ignored -- returning an io::Error
+        // on a condition that is symbolic would pull io::Error's recursive drop glue into every caller
+        if p > FCAP || buf.len() > FCAP - p { s.limit_hit = true; return Ok(buf.len()); }
         // sparse-file semantics: a gap between the old end and the write position reads as zeros
         let old = s.len[self.slot];
         if p > old {
-            let mut i = 0;
-            while i < FCAP { if i >= old && i < p { s.data[self.slot][i] = 0; } i += 1; }
+            unsafe { core::ptr::write_bytes(s.data[self.slot].as_mut_ptr().add(old), 0, p - old); }
         }
-        let mut i = 0;
-        while i < buf.len() { s.data[self.slot][p + i] = buf[i]; i += 1; }
+        // file contents are never field-sensitive (FCAP is above the limit the harnesses pass): a bulk copy is fine here
+        s.data[self.slot][p..p + buf.len()].copy_from_slice(buf);
         if p + buf.len() > old { s.len[self.slot] = p + buf.len(); }
         self.pos.set((p + buf.len()) as u64);
         s.mutations += 1;
@@ -207,7 +223,8 @@ impl File {
             SeekFrom::Current(d) => self.pos.get() as i64 + d,
             SeekFrom::End(d) => total + d,
         };
-        if np < 0 { return Err(io::Error::from(io::ErrorKind::InvalidInput)); }
+        // a negative target is an error in std; here it is flagged as outside the model (see do_write)
+        if np < 0 { s.limit_hit = true; return Ok(self.pos.get()); }
         self.pos.set(np as u64);
         Ok(np as u64)
     }
@@ -216,12 +233,16 @@ impl Read for File { fn read(&mut self, buf: &mut [u8]) -> io::Result<usize> { O
 impl Read for &File { fn read(&mut self, buf: &mut [u8]) -> io::Result<usize> { Ok(self.do_read(buf)) } }
 impl Seek for File { fn seek(&mut self, to: SeekFrom) -> io::Result<u64> { self.do_seek(to) } }
 impl Seek for &File { fn seek(&mut self, to: SeekFrom) -> io::Result<u64> { self.do_seek(to) } }
+// write_all is provided directly: a regular file accepts the whole buffer in one write, and std's default
+// write_all would keep a "wrote 0 bytes" error branch alive whenever the length is symbolic
 impl Write for File {
     fn write(&mut self, buf: &[u8]) -> io::Result<usize> { self.do_write(buf) }
+    fn write_all(&mut self, buf: &[u8]) -> io::Result<()> { match self.do_write(buf) { Ok(_) => Ok(()), Err(e) => Err(e) } }
     fn flush(&mut self) -> io::Result<()> { Ok(()) }
 }
 impl Write for &File {
     fn write(&mut self, buf: &[u8]) -> io::Result<usize> { self.do_write(buf) }
+    fn write_all(&mut self, buf: &[u8]) -> io::Result<()> { match self.do_write(buf) { Ok(_) => Ok(()), Err(e) => Err(e) } }
     fn flush(&mut self) -> io::Result<()> { Ok(()) }
 }
 
